@@ -111,6 +111,29 @@ func (s *Sess) apiGet(b, k string, head bool) {
 	s.emitOp(name, []string{hs(b), hs(k), "-"}, obsT{r: r})
 }
 
+// apiPutReusedBuffer: an upload through the Go API from a *bytes.Buffer that the caller fills again
+// afterwards (a pooled buffer): the stored object is a copy of what was uploaded
+func (s *Sess) apiPutReusedBuffer(b, k string, body, next []byte) {
+	if s.st.Ext != nil || s.st.Backend == nil {
+		return
+	}
+	buf := bytes.NewBuffer(make([]byte, 0, len(body)+len(next)+16))
+	buf.Write(body)
+	_, err := s.st.Backend.PutObject(b, k, map[string]string{}, buf, int64(len(body)))
+	r := Resp{Status: 200, Header: http.Header{}}
+	if err != nil {
+		r.Status = 500
+	} else if o, e := s.st.Backend.HeadObject(b, k); e == nil {
+		r.Header.Set("ETag", `"`+hex.EncodeToString(o.Hash)+`"`)
+		o.Contents.Close()
+	}
+	s.emitOp("put", []string{hs(b), hs(k), hx(body), metaArg(nil)}, obsT{r: r})
+	buf.Reset()
+	buf.Write(next) // the caller's buffer goes on to other uses
+	s.Get(b, k, "")
+	s.Head(b, k, "")
+}
+
 // heldRead: an object is what it was when it was opened. A reader that holds the result of GetObject
 // (size, hash, metadata and a body stream; the HTTP handler streams the same way after the backend
 // call has returned) while the key is overwritten reads the bytes its size and hash describe.
@@ -123,7 +146,7 @@ func (s *Sess) heldRead(b, k string, next []byte) {
 		return
 	}
 	s.Put(b, k, next, nil) // acknowledged while the first read is still open
-	got, rerr := io.ReadAll(o.Contents)
+	got, rerr := readAllGuarded(o.Contents)
 	o.Contents.Close()
 	sum := md5.Sum(got)
 	msg := fmt.Sprintf("%s: object %q opened (size %d, hash %x), overwritten with %d other bytes, then read: %d bytes with digest %x (read error: %v)", s.kind, k, o.Size, o.Hash, len(next), len(got), sum, rerr)
@@ -260,6 +283,9 @@ func runC01(tier string, seed uint64) {
 				}
 				nontrivial(fmt.Sprint(kind, noInt, "twins", gi))
 			}
+			// uploads through the Go API from a buffer that is reused afterwards
+			s.apiPutReusedBuffer(b, "pooled/1", []byte("first use of the pooled buffer"), []byte("SECOND USE OF THE POOLED BUFFER!!"))
+			s.apiPutReusedBuffer(b, "pooled/2", rng.Bytes(5000), rng.Bytes(5000))
 			// a read that is still open while its key is overwritten (bodies above and below the copy buffer)
 			for hi, sz := range []int{10, 70000} {
 				hk := fmt.Sprintf("held/%d", hi)
